@@ -253,6 +253,17 @@ def writeChunk (bytes : List UInt8) (vital : Option (Nat × Bool)) (cap : Nat) (
         | none => .capacity
         | some b2 => .ok b2
 
+/-- `write_chunk` for each chunk of a list in turn, into one buffer (how the connection builds a
+packet payload) -/
+def writeChunkList (cs : List (List UInt8 × Option (Nat × Bool))) (cap : Nat) (acc : List UInt8) :
+    ChunkWriteResult :=
+  match cs with
+  | [] => .ok acc
+  | (d, v) :: rest =>
+    match writeChunk d v cap acc with
+    | .ok acc' => writeChunkList rest cap acc'
+    | r => r
+
 /-! ### reading -/
 
 inductive ReadError where
@@ -374,16 +385,29 @@ def decompressIfNeeded (t : Huffman.Table) (packet : List UInt8) (cap : Nat) : D
     | .panic s => .panic s
     | .diverge => .diverge
 
-/-- the control arm of `read_impl` after the token was split off: `payload` starts with the control
-byte and lives at offset `off` of `src` -/
-def readControl (h : PacketHeader) (token : Option Token) (payload : List UInt8) (src : Src)
-    (off : Nat) : List Warning × Except ReadError (Control × Option Loc) :=
+/-- the control arm of `read_impl` after the token was split off, value part: `payload` starts with the
+control byte and lives at offset `off` of `src` -/
+def controlValue (payload : List UInt8) (src : Src) (off : Nat) : Except ReadError (Control × Option Loc) :=
+  match payload with
+  | [] => .error .controlMissing
+  | c :: pl =>
+    let c := c.toNat
+    if c = CTRLMSG_KEEPALIVE then .ok (.keepAlive, none)
+    else if c = CTRLMSG_CONNECT then .ok (.connect, none)
+    else if c = CTRLMSG_CONNECTACCEPT then .ok (.connectAccept, none)
+    else if c = CTRLMSG_ACCEPT then .ok (.accept, none)
+    else if c = CTRLMSG_CLOSE then
+      .ok (.close (pl.take (min (nulPos pl) CTRLMSG_CLOSE_REASON_LENGTH)), some { src := src, off := off + 1 })
+    else .error .unknownControl
+
+/-- the warnings the control arm emits (in order; also those emitted before an error return) -/
+def controlWarns (h : PacketHeader) (token : Option Token) (payload : List UInt8) : List Warning :=
   let w0 : List Warning := if h.numChunks ≠ 0 then [.controlNumChunks] else []
   let w1 : List Warning :=
     if h.flags &&& PACKETFLAG_COMPRESSION ≠ 0 ∨ h.flags &&& PACKETFLAG_REQUEST_RESEND ≠ 0
     then [.controlFlags] else []
   match payload with
-  | [] => (w0 ++ w1, .error .controlMissing)
+  | [] => w0 ++ w1
   | c :: pl =>
     let c := c.toNat
     let w2 : List Warning :=
@@ -393,20 +417,18 @@ def readControl (h : PacketHeader) (token : Option Token) (payload : List UInt8)
             [.controlConnectMissingTokenMagic] ++ (if pl ≠ [] then [.controlExcessData] else [])
           else if pl.length > CTRLMSG_TOKEN_MAGIC.length then [.controlExcessData] else []
         else if pl ≠ [] then [.controlExcessData] else []
-      else if c = CTRLMSG_CLOSE then []
-      else if pl.length ≠ 0 then [.controlExcessData] else []
-    if c = CTRLMSG_KEEPALIVE then (w0 ++ w1 ++ w2, .ok (.keepAlive, none))
-    else if c = CTRLMSG_CONNECT then (w0 ++ w1 ++ w2, .ok (.connect, none))
-    else if c = CTRLMSG_CONNECTACCEPT then (w0 ++ w1 ++ w2, .ok (.connectAccept, none))
-    else if c = CTRLMSG_ACCEPT then (w0 ++ w1 ++ w2, .ok (.accept, none))
-    else if c = CTRLMSG_CLOSE then
-      let nul := min (nulPos pl) CTRLMSG_CLOSE_REASON_LENGTH
-      let w3 : List Warning :=
+      else if c = CTRLMSG_CLOSE then
+        let nul := min (nulPos pl) CTRLMSG_CLOSE_REASON_LENGTH
         if pl.length ≠ 0 ∧ nul + 1 ≠ pl.length then
           if nul + 1 < pl.length then [.controlExcessData] else [.controlNulTermination]
         else []
-      (w0 ++ w1 ++ w2 ++ w3, .ok (.close (pl.take nul), some { src := src, off := off + 1 }))
-    else (w0 ++ w1 ++ w2, .error .unknownControl)
+      else if pl.length ≠ 0 then [.controlExcessData] else []
+    w0 ++ w1 ++ w2
+
+/-- the control arm of `read_impl`: warnings and value -/
+def readControl (h : PacketHeader) (token : Option Token) (payload : List UInt8) (src : Src)
+    (off : Nat) : List Warning × Except ReadError (Control × Option Loc) :=
+  (controlWarns h token payload, controlValue payload src off)
 
 /-- embedding of the panic-free part of the reader -/
 def ReadResult.lift : Except (ReadError × List Warning) ReadOk → ReadResult
@@ -425,34 +447,37 @@ def readConnless (bytes payload0 : List UInt8) (wh : List Warning) :
     .ok { pkt := .connless payload, warns := wh ++ wp,
           loc := some { src := .input, off := HEADER_SIZE + PADDING_SIZE_CONNLESS }, scratch := [] }
 
+/-- `read_impl` once it is decided whether the payload ends with a token -/
+def readBodyWith (h : PacketHeader) (wh : List Warning) (payload : List UInt8) (src : Src)
+    (scratch : List UInt8) (hasToken : Bool) : Except (ReadError × List Warning) ReadOk :=
+  if hasToken ∧ payload.length < TOKEN_SIZE then .error (.tokenMissing, wh)
+  else
+    let tb := payload.drop (payload.length - TOKEN_SIZE)
+    let token : Option Token :=
+      if hasToken then some ⟨tb.getD 0 0, tb.getD 1 0, tb.getD 2 0, tb.getD 3 0⟩ else none
+    let payload := if hasToken then payload.take (payload.length - TOKEN_SIZE) else payload
+    if h.flags &&& PACKETFLAG_CONTROL ≠ 0 then
+      match controlValue payload src HEADER_SIZE with
+      | .error e => .error (e, wh ++ controlWarns h token payload)
+      | .ok (c, loc) =>
+        .ok { pkt := .connected h.ack token (.control c), warns := wh ++ controlWarns h token payload,
+              loc := loc, scratch := scratch }
+    else
+      let rr : Bool := h.flags &&& PACKETFLAG_REQUEST_RESEND ≠ 0
+      let wn : List Warning := if h.numChunks = 0 ∧ ¬ rr then [.chunksNoChunks] else []
+      .ok { pkt := .connected h.ack token (.chunks rr h.numChunks payload), warns := wh ++ wn,
+            loc := some { src := src, off := HEADER_SIZE }, scratch := scratch }
+
 /-- `read_impl` after the (possibly decompressed) payload of a connected packet has been located:
 `payload` lives at offset `HEADER_SIZE` of `src`. No panic site is left in this part. -/
 def readBody (h : PacketHeader) (wh : List Warning) (payload : List UInt8) (src : Src)
     (scratch : List UInt8) (tokenHint : Option Bool) : Except (ReadError × List Warning) ReadOk :=
   if payload.length > READ_PAYLOAD_LIMIT then .error (.compression, wh)
   else
-    let hasToken : Bool := match tokenHint with
-      | some b => b
-      | none => hasTokenHeuristic (h.flags &&& PACKETFLAG_CONTROL ≠ 0) h.numChunks payload
-    if hasToken ∧ payload.length < TOKEN_SIZE then .error (.tokenMissing, wh)
-    else
-      let (payload, token) : List UInt8 × Option Token :=
-        if hasToken then
-          let tb := payload.drop (payload.length - TOKEN_SIZE)
-          (payload.take (payload.length - TOKEN_SIZE),
-           some ⟨tb.getD 0 0, tb.getD 1 0, tb.getD 2 0, tb.getD 3 0⟩)
-        else (payload, none)
-      if h.flags &&& PACKETFLAG_CONTROL ≠ 0 then
-        match readControl h token payload src HEADER_SIZE with
-        | (ws, .error e) => .error (e, wh ++ ws)
-        | (ws, .ok (c, loc)) =>
-          .ok { pkt := .connected h.ack token (.control c), warns := wh ++ ws, loc := loc,
-                scratch := scratch }
-      else
-        let rr : Bool := h.flags &&& PACKETFLAG_REQUEST_RESEND ≠ 0
-        let wn : List Warning := if h.numChunks = 0 ∧ ¬ rr then [.chunksNoChunks] else []
-        .ok { pkt := .connected h.ack token (.chunks rr h.numChunks payload), warns := wh ++ wn,
-              loc := some { src := src, off := HEADER_SIZE }, scratch := scratch }
+    readBodyWith h wh payload src scratch
+      (match tokenHint with
+       | some b => b
+       | none => hasTokenHeuristic (h.flags &&& PACKETFLAG_CONTROL ≠ 0) h.numChunks payload)
 
 /-- `Packet::read_impl`. `buffer = some cap`: `Packet::read` with a scratch buffer of `cap` free
 bytes; `buffer = none`: `read_panic_on_decompression`. -/
